@@ -36,6 +36,11 @@ def gen_enum(maxlen: int) -> Iterator[Dict[str, Any]]:
                     ops += [["fire", 1, pos], ["list"]]
                 ops += [["fire", 3, 1], ["list"]]
                 yield {"cfg": {"tasks": tasks}, "ops": ops, "family": "label_enum"}
+                if L >= 2:
+                    # the same lists with explicit schedule ids: one id shared by every entry of task 1, and two ids alternating
+                    for pat, fam in ((lambda i: 1, "label_enum_sameid"), (lambda i: 1 + i % 2, "label_enum_twoids")):
+                        t2 = [{"own": True, "entries": [dict(e, i=pat(i)) for i, e in enumerate(entries)]}] + tasks[1:]
+                        yield {"cfg": {"tasks": t2}, "ops": ops, "family": fam}
 
 
 def gen_random(seed: int, n: int) -> List[Dict[str, Any]]:
@@ -44,12 +49,13 @@ def gen_random(seed: int, n: int) -> List[Dict[str, Any]]:
     for _ in range(n):
         tasks = []
         a = 0
+        ids = rng.random() < 0.4          # explicit schedule ids (0 = none, generated), shared among entries of a task
         for _ in range(rng.randint(1, 3)):
             entries = []
             for _ in range(rng.randint(0, 5)):
                 a += 1
                 k = rng.choice(["cron", "time", "time", "time", "both", "invalid"])
-                entries.append({"k": k, "t": rng.randint(1, 3) if k in ("time", "both") else 0, "a": a})
+                entries.append({"k": k, "t": rng.randint(1, 3) if k in ("time", "both") else 0, "a": a, "i": rng.randint(0, 2) if ids else 0})
             tasks.append({"own": rng.random() < 0.8, "entries": entries})
         ops: List[Any] = []
         for _ in range(rng.randint(1, 8)):
@@ -67,6 +73,9 @@ def run_part(tier: str, rep: common.Reporter) -> Dict[str, Any]:
     mc_cfgs = [lbl_driver.normalize({"tasks": [{"own": True, "entries": [dict(KINDS[k], a=i + 1) for i, k in enumerate(combo)]},
                                                {"own": False, "entries": [{"k": "time", "t": 1, "a": 9}]}]})
                for L in ((2, 3) if q else (2, 3, 4)) for combo in itertools.product(range(len(KINDS)), repeat=L)]
+    mc_cfgs += [lbl_driver.normalize({"tasks": [{"own": True, "entries": [dict(KINDS[k], a=i + 1, i=pat(i)) for i, k in enumerate(combo)]}]})
+                for L in ((2, 3) if q else (2, 3, 4)) for combo in itertools.product(range(len(KINDS)), repeat=L)
+                for pat in (lambda i: 1, lambda i: 1 + i % 2, lambda i: i % 2)]
     text = "SPECIFICATION Spec\nCONSTANTS\n  Cfgs <- JsonCfgs\n  MaxOps = %d\n  AllowedViol = {}\nINVARIANT NoViolation\nCHECK_DEADLOCK FALSE\n" % (4 if q else 5)
     r = mbt.mc("MC_Lbl", mc_cfgs, text, timeout=1500 if q else 6000)
     if not r.get("ok_finished") or "distinct" not in r:
@@ -104,7 +113,8 @@ def run_part(tier: str, rep: common.Reporter) -> Dict[str, Any]:
                          "sample": {"scenario": scns[len(scns) // 3], "trace": traces[len(scns) // 3]["ev"][:6]}},
             "violations": viol,
             "assumptions": ["label-based half: real LabelScheduleSource + TaskiqScheduler.on_ready + AsyncKicker against a recording broker; "
-                            "entry lists of length <= 3 (quick) / 4 (thorough) over {cron, time t1, duplicate time t1, time t2, cron+time, invalid} enumerated exhaustively"]}
+                            "entry lists of length <= 3 (quick) / 4 (thorough) over {cron, time t1, duplicate time t1, time t2, cron+time, invalid} enumerated exhaustively, "
+                            "each also with one explicit schedule_id shared by all entries and with two alternating explicit ids"]}
 
 
 def replay(path: str) -> int:
